@@ -765,35 +765,52 @@ def run_impl(hists, timeout=300):
     return {h: [r for r in rs if r.get("s", 0) >= 1] for h, rs in res.items()}
 
 
-def run_model(hists, timeout=300):
-    """{hid: steps} -> {hid: [(store, dumpstore, stopped) per step]}; store: {(kind, n): (num, id)}"""
+def run_model(hists, timeout=240):
+    """{hid: steps} -> {hid: [(store, dumpstore, stopped) per step]}; store: {(kind, n): (num, id)}.
+    The histories are sharded into cases files of at most 20 (one `Eval vm_compute` each, so every printed term
+    stays small); a shard that does not finish in time is split and retried, a single history that does not
+    finish is an infrastructure error naming it."""
     ids = list(hists)
     import concurrent.futures as cf
-    nw = max(1, min(4, (len(ids) + 9) // 10))
-    chunks = [ids[i::nw] for i in range(nw)]
+    shard = 20
+    chunks = [ids[i:i + shard] for i in range(0, len(ids), shard)]
 
     def work(chunk):
         v = ["From Coq Require Import ZArith List.", "From IPV.C14 Require Import Store Exec.", "Import ListNotations.", "Open Scope Z_scope."]
         for hid in chunk:
             v.append("Eval vm_compute in x_show [\n  %s ]." % ";\n  ".join(step_coq(s) for s in hists[hid]))
         rc, out = vlib.coq_eval("\n".join(v) + "\n", timeout=timeout)
+        if rc == 124:
+            if len(chunk) == 1:
+                raise RuntimeError("model evaluation of history %s did not finish within %d s:\n%s" % (chunk[0], timeout, v[-1][:1500]))
+            h = len(chunk) // 2
+            res = work(chunk[:h])
+            res.update(work(chunk[h:]))
+            return res
         if rc != 0:
-            raise RuntimeError("model evaluation failed: " + out[-1500:])
+            err = [l for l in out.split("\n") if "Error" in l or l.startswith("File ")]
+            raise RuntimeError("model evaluation failed (coqc rc %d): %s" % (rc, "\n".join(err[:6]) or out[:1500]))
         parts = re.split(r"^\s*=\s", out, flags=re.M)[1:]
         if len(parts) != len(chunk):
-            raise RuntimeError("model evaluation: %d results for %d histories" % (len(parts), len(chunk)))
+            raise RuntimeError("model evaluation: %d results for %d histories; output starts: %s" % (len(parts), len(chunk), out[:600]))
         res = {}
         for hid, ptxt in zip(chunk, parts):
-            body = ptxt.split("\n     :")[0]
-            data = json.loads(body.replace(";", ","))
+            body = " ".join(ptxt.split())                 # the printer wraps lines anywhere
+            body = body.split(" : list")[0]
+            try:
+                data = json.loads(body.replace(";", ","))
+            except ValueError as ex:
+                raise RuntimeError("model output of history %s not parsable (%s): %s" % (hid, ex, body[:600]))
             steps = []
             for st, du, stop in data:
                 steps.append((dec_store(st), dec_store(du), bool(stop[0])))
+            if len(steps) != len(hists[hid]):
+                raise RuntimeError("model output of history %s has %d steps for %d simulations" % (hid, len(steps), len(hists[hid])))
             res[hid] = steps
         return res
 
     res = {}
-    with cf.ThreadPoolExecutor(max_workers=nw) as ex:
+    with cf.ThreadPoolExecutor(max_workers=max(1, min(6, len(chunks)))) as ex:
         for o in ex.map(work, chunks):
             res.update(o)
     return res
